@@ -186,7 +186,7 @@ def load_trajectory_as_striped(filenames, *args, **kwargs):
 
     # if we're specifying parameters separately for each trj to load, we
     # need to stripe those across nodes also.
-    if 'args' in kwargs and len(kwargs['args']) > 1:
+    if kwargs.get('args') is not None and len(kwargs['args']) > 1:
         assert len(kwargs['args']) == len(filenames)
         kwargs['args'] = kwargs['args'].copy()[mpi.rank()::mpi.size()]
 
